@@ -123,6 +123,39 @@ def _collect_obs():
 
 # -- the oracle ---------------------------------------------------------------
 
+def check_filters(table, survivors, method, cfg):
+    """T2 (which bins may survive): a zero-weight bin (or one below min_weight) never survives,
+    a null-coverage bin never survives skip_low, and without the outlier filter every other
+    bin does.  The outlier filter itself is not modelled (see T7 in run_one)."""
+    import numpy as np
+
+    cols = table["columns"]
+    w = np.array(cols["weight"], dtype=float)
+    l2 = np.array(cols["log2"], dtype=float)
+    must_drop = (w < cfg["min_weight"]) if cfg["min_weight"] else (w == 0)
+    if cfg["skip_low"]:
+        must_drop = must_drop | (l2 < -15.0)
+        if "depth" in cols:
+            must_drop = must_drop | (np.array(cols["depth"], dtype=float) == 0)
+    alive = np.array([(c, s, e) in survivors for c, s, e in
+                      zip(cols["chromosome"], cols["start"], cols["end"])], dtype=bool)
+    bad = np.flatnonzero(alive & must_drop)
+    if len(bad):
+        i = int(bad[0])
+        raise Violation("T2", f"C03/T2/{method}/filter_kept",
+                        f"{cols['chromosome'][i]}:{cols['start'][i]}-{cols['end'][i]} (weight {w[i]!r}, log2 "
+                        f"{l2[i]!r}) was segmented although skip_low={cfg['skip_low']}, min_weight="
+                        f"{cfg['min_weight']} must drop it ({len(bad)} such bins)")
+    if not cfg["skip_outliers"]:
+        bad = np.flatnonzero(~alive & ~must_drop)
+        if len(bad):
+            i = int(bad[0])
+            raise Violation("T2", f"C03/T2/{method}/filter_lost",
+                            f"{cols['chromosome'][i]}:{cols['start'][i]}-{cols['end'][i]} (weight {w[i]!r}, "
+                            f"log2 {l2[i]!r}) was dropped although no filter applies to it and the outlier "
+                            f"filter is off ({len(bad)} such bins)")
+
+
 def check_table(segs, table, survivors, method, ctx=None, rtol=1e-9):
     """T1-T5 on one result.  `segs` is a DataFrame; raises Violation.  `rtol` is
     1e-9 for in-memory results and 2e-5 for tables read back from a .cns file
@@ -315,6 +348,19 @@ def run_one(tape, tier, opts):
     n_filtered = 0
     try:
         cnarr = G.make_cna(table)
+        # row labels of the input frame: default 0..n-1, or what a pre-filtered / re-indexed
+        # table carries (gapped, offset, descending)
+        index_style = tape.weighted([("default", 5), ("gapped", 1), ("offset", 1), ("descending", 1)],
+                                    "cnr.index")
+        plan["index"] = index_style
+        if index_style != "default":
+            import numpy as np
+            import pandas as pd
+            n_rows = len(cnarr.data)
+            labels = {"gapped": np.arange(n_rows) * 3 + 7, "offset": np.arange(n_rows) + 1000,
+                      "descending": np.arange(n_rows)[::-1]}[index_style]
+            cnarr.data.index = pd.Index(labels)
+            ctx.probe("input.index_" + index_style)
         kw = dict(skip_low=skip_low, skip_outliers=skip_outliers, min_weight=min_weight,
                   threshold=threshold, diploid_parx_genome=parx)
 
@@ -379,7 +425,37 @@ def run_one(tape, tier, opts):
             ctx.probe("bins.filtered")
         if len(table["arms"]) > len(table["plan"]["chroms"]):
             ctx.probe("centromere.split")
+        cfg = {"skip_low": skip_low, "skip_outliers": skip_outliers, "min_weight": min_weight}
+        check_filters(table, surv, method, cfg)
         check_table(out.data, table, surv, method, ctx)
+        if is_hmm and skip_outliers:
+            # T7: what the outlier filter drops on an unsplit chromosome does not depend on the
+            # method (hmm* filter the whole table in one call, the per-arm methods arm by arm)
+            kw_none = dict(kw)
+            kw_none["threshold"] = None
+            try:
+                seg.do_segmentation(cnarr, "none", processes=1, **kw_none)
+            except C.SimCrash:
+                raise
+            except BaseException:  # noqa: BLE001
+                _collect_obs()
+            else:
+                surv_none, _n = _collect_obs()
+                per = {}
+                for (c, _i0, _i1) in table["arms"]:
+                    per[c] = per.get(c, 0) + 1
+                for c, n_arms in per.items():
+                    if n_arms != 1:
+                        continue
+                    a = {b for b in surv if b[0] == c}
+                    b_ = {b for b in surv_none if b[0] == c}
+                    if a != b_:
+                        x = sorted(a ^ b_)[0]
+                        raise Violation("T2", f"C03/T2/{method}/filter_method_dependent",
+                                        f"{c}: with skip_outliers={skip_outliers} the bins segmented by {method} "
+                                        f"differ from those segmented by 'none' under the same filters "
+                                        f"(e.g. {x[1]}-{x[2]} is {'kept' if x in a else 'dropped'} by {method} only)")
+                ctx.probe("filters.method_independent_checked")
         serial_c = D.canon(out)
         digests.append(D.digest(serial_c))
         if use_pool and pooled is None:
